@@ -203,9 +203,20 @@ def plan(cfg: Dict, buckets: List[Tuple[str, int, int]], rng: Rng, thorough: boo
     rel_set = set(rel)
     items: List[dict] = []
     if thorough:
+        # the grid: every relevant action in EVERY bucket; every other action of the map in three buckets (the first, the longest of
+        # the inner ones, the last).  If that is more than `cap` cells, every action keeps an equal share of its cells (seeded).
+        inner = buckets[1:-1] or buckets
+        three = [buckets[0], max(inner, key=lambda b: b[2] - b[1]), buckets[-1]]
+        three = [b for i, b in enumerate(three) if b not in three[:i]]
+        per_action: List[List[dict]] = []
         for a in acts:
-            for b in buckets:
-                items.append({"dist": [(pick_time(rng, b), a)], "why": "grid" + (":relevant" if a in rel_set else ""), "buckets": [b[0]]})
+            bs = buckets if a in rel_set else three
+            cells = [{"dist": [(pick_time(rng, b), a)], "why": "grid" + (":relevant" if a in rel_set else ""), "buckets": [b[0]]} for b in bs]
+            per_action.append(rng.shuffle(cells) if sum(len(buckets) if x in rel_set else len(three) for x in acts) > cap else cells)
+        while any(per_action) and len(items) < cap:
+            for cells in per_action:
+                if cells and len(items) < cap:
+                    items.append(cells.pop(0))
     else:
         # every relevant action once; the buckets are dealt round-robin from a seeded starting point so that all of them are
         # used across the relevant actions, and every second one is placed early (the whole red chain runs disturbed)
